@@ -82,7 +82,14 @@ def render_sw(sw):
 def tlc_case(c):
     sw = c['sw'] or {'product': 'none', 'c': [0], 'p': ['none', 0]}
     banner = c['banner'] or render_sw(c['sw'])
-    return {
+    extra = {}
+    if c['role'] == 'client':
+        # a client is judged on the lists of the direction it sends in (client-to-server); the report lists the other direction
+        if 'enc_c2s' in c:
+            extra['tenc'] = [alias(shown(n)) for n in c['enc_c2s']]
+        if 'mac_c2s' in c:
+            extra['tmac'] = [alias(shown(n)) for n in c['mac_c2s']]
+    return dict(extra, **{
         'id': c['id'], 'role': c['role'],
         'kex': [alias(shown(n)) for n in c['kex']], 'key': [alias(shown(n)) for n in c['key']],
         'enc': [alias(shown(n)) for n in c['enc']], 'mac': [alias(shown(n)) for n in c['mac']],
@@ -91,7 +98,7 @@ def tlc_case(c):
         'dh': {k: {'bits': v[0], 'fallback': bool(v[1])} for k, v in c['dh'].items()},
         'sw': {'product': sw['product'], 'c': list(sw['c']), 'p': list(sw['p'])},
         'openssh': 'OpenSSH' in banner.split('-', 2)[2] if banner.count('-') >= 2 else False,
-    }
+    })
 
 
 INVARIANTS = ['ShownIsAdvertised', 'ExitRule', 'StatusDomain', 'PositionIndependent', 'UnknownFlagged', 'TerrapinExact',
